@@ -223,6 +223,23 @@ R.lemma("L_sp_mono", [("c", SetT(BITS)), ("p", BITS), ("x", BITS)], ["SeededPath
 R.lemma("L_initok_add", [("c", SetT(BITS)), ("v", BITS)], ["InitOK(c)", "v in c"],
         ["InitOK(setadd(setadd(c, v + '0'), v + '1'))"],
         triggers=[["InitOK(c)", "setadd(setadd(c, v + '0'), v + '1')"]])
+R.lemma("S_snoc", [("x", BITS)], ["len(x) >= 1"], ["x == x[:-1] + '0' or x == x[:-1] + '1'",
+                                                   "sibling(x[:-1] + '0') == x[:-1] + '1'"], triggers=[])
+R.lemma("L_sp_in", [("c", SetT(BITS)), ("p", BITS)], ["InitOK(c)", "SeededPath(c, p)"], ["p in c"], triggers=[],
+        proof=["case len(p) == 0", "use S_snoc(p)", "inst len(p) - 1", "inst p[:-1] + '0'", "inst p[:-1] + '1'",
+               "use S_take_take(p, len(p) - 1, len(p) - 1)"])
+# property-level theorems for C04/C05
+R.lemma("T_seedpath", [("o", O), ("m", INT), ("L", INT), ("p", BITS), ("a", BITS)],
+        ["InitOK(o.c0)", "SeededPath(o.c0, p)", "0 <= m", "m <= L", "len(a) == L", "len(p) <= L"],
+        ["(a[:len(p)] == p) == (G(o, m, a)[:len(p)] == p)"], triggers=[],
+        proof=["use L_sp_in(o.c0, p)", "use LG_seed(o, m, p)", "use LG_prefix(o, m, a, len(p))",
+               "use LG_inj(o, m, a[:len(p)], p)"])
+R.lemma("T_hostbits", [("o", O), ("m", INT), ("L", INT), ("x", BITS), ("y", BITS)],
+        ["0 <= m", "m <= L", "len(x) == L", "len(y) == L"],
+        ["G(o, m, x)[m:] == x[m:]", "implies(x[:m] == y[:m], G(o, m, x)[:m] == G(o, m, y)[:m])"], triggers=[],
+        proof=["use S_take_all(x, m)", "use S_take_all(y, m)",
+               "use S_take_app1(A(o, x[:m]), x[m:], m)", "use S_take_app1(A(o, y[:m]), y[m:], m)",
+               "use S_take_all(A(o, x[:m]), m)", "use S_take_all(A(o, y[:m]), m)"])
 R.pred("CacheInit", [("o", O)], [
     ("initok", "InitOK(dom(o.cache))"),
     ("ident", "all(o.cache[k] == k and len(k) <= 32 for k in o.cache)"),
@@ -272,3 +289,94 @@ R.contract(M + "IpAnonymizer.__init__",
                    "all((prefix_bits[:q] + '0') in self.cache for q in range(_i1))",
                ]),
            })
+
+SPEC_BUILTINS["ValidV4Text"] = _sp_uf_pred("ValidV4Text", STR)
+SPEC_BUILTINS["ValidV6Text"] = _sp_uf_pred("ValidV6Text", STR)
+SPEC_BUILTINS["TextVal4"] = _sp_uf_fun("TextVal4", INT, STR)
+SPEC_BUILTINS["TextVal6"] = _sp_uf_fun("TextVal6", INT, STR)
+SPEC_BUILTINS["addr_str"] = _sp_uf_fun("addr_str", STR, Opq("Addr"))
+SPEC_BUILTINS["addr_of_int"] = _sp_uf_fun("addr_of_int", Opq("Addr"), INT, INT)
+SPEC_BUILTINS["addr_of_text4"] = _sp_uf_fun("addr_of_text4", Opq("Addr"), STR)
+
+R.contract(M + "IpAnonymizer.should_anonymize",
+           types={"self": O4, "ip_int": INT}, returns=BOOL, pure=True, reads=["self._preserve_addresses"],
+           requires=["0 <= ip_int", "ip_int < 4294967296"],
+           ensures=["implies(IsMaskSpec(ip_int), not result)",
+                    "all(implies(InNet(ip_int, n), not result) for n in self._preserve_addresses)",
+                    "implies(not result and not IsMaskSpec(ip_int), "
+                    "any(InNet(ip_int, n) for n in self._preserve_addresses))"])
+
+# E-dropzeros (ASSUMED, trusted): the value of a dotted quad ignoring leading zeros depends on the greedy
+# captures of _DROP_ZEROS_PATTERN, which SMT regex theories cannot express; conformance-tested in rt_ip.
+R.contract(M + "IpAnonymizer.make_addr", trusted=True,
+           types={"cls": Ty("cls", "netconan.ip_anonymization", "IpAnonymizer"), "addr_str": STR},
+           returns=Opq("Addr"), pure=True,
+           raises={"AddressValueError": "not ValidV4Text(addr_str)"},
+           ensures=["result == addr_of_text4(addr_str)"])
+
+for _fam, _OT, _L, _valid, _tv in (("v4", O4, 32, "ValidV4Text", "TextVal4"), ("v6", ObjT("Ip6"), 128, "ValidV6Text", "TextVal6")):
+    _m = "anonymizer.length - anonymizer.preserve_suffix"
+    _should = "%s(match) and anonymizer.should_anonymize(%s(match))" % (_valid, _tv) if _fam == "v4" \
+        else "%s(match)" % _valid
+    R.contract(M + "_anonymize_match@" + _fam,
+               types={"anonymizer": _OT, "match": STR, "undo_ip_anon": BOOL}, returns=STR,
+               # any text may arrive here (C14): text the address parser rejects must be returned unchanged
+               requires=["WF(anonymizer)", "anonymizer.length == %d" % _L],
+               modifies=["anonymizer.cache", "log"],
+               ensures=[
+                   # masks / preserved addresses / non-addresses: the text exactly as written
+                   "implies(not (%s), result == match)" % _should,
+                   "implies((%s) and not undo_ip_anon, result == addr_str(addr_of_int(%d, "
+                   "V(G(anonymizer, %s, B(%s(match), %d))))))" % (_should, _L, _m, _tv, _L),
+                   "implies((%s) and undo_ip_anon, result == addr_str(addr_of_int(%d, "
+                   "V(Ginv(anonymizer, %s, B(%s(match), %d))))))" % (_should, _L, _m, _tv, _L),
+                   "WF(anonymizer)",
+                   "Extends(old(anonymizer.cache), anonymizer.cache)",
+                   "implies((%s) and not undo_ip_anon, B(%s(match), %d) in anonymizer.cache)" % (_should, _tv, _L),
+               ])
+
+for _fam, _OT, _L in (("v4", O4, 32), ("v6", ObjT("Ip6"), 128)):
+    R.contract(M + "anonymize_ip_addr@" + _fam,
+               types={"anonymizer": _OT, "line": STR, "undo_ip_anon": BOOL}, returns=STR,
+               requires=["WF(anonymizer)", "anonymizer.length == %d" % _L],
+               modifies=["anonymizer.cache", "log"],
+               ensures=["WF(anonymizer)", "Extends(old(anonymizer.cache), anonymizer.cache)"],
+               loops={"sub0": LoopContract([], heap_modifies=["anonymizer.cache"], invariant=[
+                   "WF(anonymizer)", "Extends(old(anonymizer.cache), anonymizer.cache)"])})
+
+
+# ---------------------------------------------------------------- dump_to_file (C17)
+def _out_write(eng, args, kw, node):
+    """file.write(s): ghost stream of the strings written (E-os: open(p,'w') writes only p)"""
+    f, sarg = args
+    c = eng.st.heap[f.rid]
+    w = c.fields["written"]
+    cur = eng.st.heap[w.rid]
+    import z3 as _z3
+    eng.st.heap[w.rid] = P(cur.ty, _z3.Concat(cur.term, _z3.Unit(eng.term(sarg, STR))))
+    return NoneV()
+
+
+R.objtype("OutFile", fields={"written": Ty("list", STR)}, ext_methods={"write": _out_write})
+OUT = ObjT("OutFile")
+
+R.specfn("DumpLine", [("o", O), ("k", BITS), ("v", BITS), ("L", INT)], STR,
+         "addr_str(addr_of_int(L, V(k))) + '\\t' + addr_str(addr_of_int(L, V(v))) + '\\n'")
+
+for _fam, _OT, _L in (("v4", O4, 32), ("v6", ObjT("Ip6"), 128)):
+    R.contract(M + "_BaseIpAnonymizer.dump_to_file@" + _fam,
+               types={"self": _OT, "file_out": OUT}, returns=NONE,
+               requires=["WF(self)", "self.length == %d" % _L],
+               modifies=["file_out.written"],
+               ensures=[
+                   # every full-length key of the memo is written, with exactly the memoised image
+                   "all(implies(len(k) == self.length, "
+                   "has(file_out.written, DumpLine(self, k, self.cache[k], %d))) for k in self.cache)" % _L,
+                   # nothing already written is lost, and at most one line per memo entry is added
+                   "len(seq(file_out.written)) <= len(seq(old(file_out.written))) + size(self.cache)",
+               ],
+               loops={0: LoopContract(["anon_bits", "bits"], index="_i0", heap_modifies=["file_out.written"], invariant=[
+                   "all(implies(j < _i0 and len(ENUM[j]) == self.length, "
+                   "has(file_out.written, DumpLine(self, ENUM[j], self.cache[ENUM[j]], %d))) for j in range(_n))" % _L,
+                   "len(seq(file_out.written)) <= len(seq(old(file_out.written))) + _i0",
+               ])})
